@@ -53,7 +53,7 @@ def main():
                        "/var/tmp/e2fs-verif-build), configures it out of tree with "
                        "CFLAGS='-DE2FSPROGS_VERIF -fsanitize=address,bounds' and links every tool "
                        "with sim/shim/simshim.o through -Wl,--wrap=<libc symbol>"),
-            "baseline_off_cmd": "make -C /repo -j16 >/dev/null && make -C /repo/tests -j8 check",
+            "baseline_off_cmd": "make -C /repo -j16 >/dev/null && make -C /repo -j8 check",
             "source_commits": HOOK_COMMITS,
             "add_only": True,
         },
